@@ -90,8 +90,12 @@ def plans_for(ctx, c, r0, pairs):
     if any(x[0] == 'hole' for x in data) and c.driver == 'parblock':
         plans.append(('fiemap-EOPNOTSUPP', [f'fail ioctl fiemap * {E["EOPNOTSUPP"]}']))
         plans.append(('fiemap-EOPNOTSUPP+short', [f'fail ioctl fiemap * {E["EOPNOTSUPP"]}', f'clamp copy_file_range D/f * 1 5']))
+    if any(x[0] == 'hole' for x in data) and c.driver == 'parfile':
+        # hole search not offered by the file system (SEEK_DATA/SEEK_HOLE refused): an error or a full copy, never "no data"
+        plans.append(('seek-refused', [f'fail lseek S/f * {E["EINVAL"]}']))
+        plans.append(('seek-refused-later', [f'fail lseek S/f 3 {E["EINVAL"]}']))
     if ctx.quick and len(plans) > 9:
-        always = ('short-then-error', 'short-then-unsupported', 'fiemap-EOPNOTSUPP', 'fiemap-EOPNOTSUPP+short')
+        always = ('short-then-error', 'short-then-unsupported', 'fiemap-EOPNOTSUPP', 'fiemap-EOPNOTSUPP+short', 'seek-refused', 'seek-refused-later')
         keep = plans[:2] + [p for p in plans[2:] if p[0] in always] + rng.sample([p for p in plans[2:] if p[0] not in always], 5)
         plans = keep
     return plans
@@ -168,7 +172,10 @@ def run(ctx):
     # corpus: a sparse source on a file system without extent mapping, block driver (whole-file path must be taken)
     c1 = br.Case(); c1.files = [('f', br.gen_data(ctx.rng, 70 * br.K + 123, True))]; c1.bsize = 65536; c1.no_progress = False; c1.driver = 'parblock'; c1.workers = 2
     c1.reflink = 'auto'; c1.prior = 'absent'; c1.plan = []; c1.extra = []; c1.tag = 'corpus-sparse-no-fiemap'
-    cases = [c0, c1] + cases
+    # corpus: the same source under the file driver (hole search by lseek)
+    c2 = br.Case(); c2.files = [('f', [('seg', 40 * br.K, 7), ('hole', 64 * br.K), ('seg', 9 * br.K + 5, 8)])]; c2.bsize = 65536; c2.no_progress = False; c2.driver = 'parfile'; c2.workers = 2
+    c2.reflink = 'never'; c2.prior = 'absent'; c2.plan = []; c2.extra = []; c2.tag = 'corpus-sparse-parfile'
+    cases = [c0, c1, c2] + cases
     with core.Scratch('c05') as root:
         for i, c in enumerate(cases):
             pairs = br.setup_case(root, c)
@@ -196,7 +203,7 @@ def run(ctx):
                 br.verify_case(ctx, root, c, pairs, r, f'case-{i}-{name}')
                 if r.cls != '0' and not c.model_failed and injected:
                     # the model, fed the same kernel answers, says every loop succeeds, yet xcp failed
-                    hard = any(e.get('inj') and e['sys'] in ('copy_file_range', 'ficlone') and e.get('inj') in (E['EIO'],) for e in r.trace)
+                    hard = any(e.get('inj') and (e['sys'] == 'lseek' or (e['sys'] in ('copy_file_range', 'ficlone') and e.get('inj') in (E['EIO'],))) for e in r.trace)
                     short_w = any(e['sys'] in ('pwrite64',) and 'clamp_from' in e for e in r.trace)
                     if not hard and not short_w:
                         ctx.violation(f'case-{i}-{name}-exit.json', dict(case=c.__dict__, plan=plan, exit=r.exit, stderr=r.stderr[-800:],
